@@ -43,6 +43,14 @@ func VerifHarness_Step_BasketCreate() {
 				denom = fee.Fee.Denom
 			}
 			zzinv.CheckC05FeeBurn(s.Sk.Basket, denom, fee.Fee != nil)
+			if s.Err != nil && !s.Panicked && fee.Fee != nil {
+				feeInt, _ := sdk.NewIntFromString(fee.Fee.Amount)
+				offer, same := zz.QInt(0), false
+				if len(req.Fee) > 0 {
+					offer, same = zz.QOf(req.Fee[0].Amount), zz.StrEq(req.Fee[0].Denom, fee.Fee.Denom)
+				}
+				zzinv.CheckFeeNeverDisables("basket Create", s.Err, true, zz.QOf(feeInt), len(req.Fee) > 0, same, offer, zz.BankBal0(s.Signer, fee.Fee.Denom))
+			}
 			if s.Err == nil {
 				if fee.Fee != nil {
 					feeInt, _ := sdk.NewIntFromString(fee.Fee.Amount)
@@ -51,10 +59,15 @@ func VerifHarness_Step_BasketCreate() {
 					zz.Assert(zz.QEq(zz.QSub(zz.BankSupply0(fee.Fee.Denom), zz.BankSupply1(fee.Fee.Denom)), feeAmt), "C18 a successful basket Create burns exactly the stored basket fee")
 					mod := zz.ModuleAddr(basket.BasketSubModuleName)
 					zz.Assert(zz.QEq(zz.BankBal0(mod, fee.Fee.Denom), zz.BankBal1(mod, fee.Fee.Denom)), "C18 the basket module account keeps nothing of the basket fee")
-					zz.Assert(zz.And(len(req.Fee) > 0, zz.StrEq(req.Fee[0].Denom, fee.Fee.Denom)), "C18 basket Create succeeds only with an offer in the fee denom")
+					// a stored fee of zero requires and charges nothing
+					positive := zz.QLt(zz.QInt(0), feeAmt)
+					same := false
 					if len(req.Fee) > 0 {
-						zz.Assert(zz.QLe(feeAmt, zz.QOf(req.Fee[0].Amount)), "C18 basket Create succeeds only if the offer covers the fee")
+						same = zz.StrEq(req.Fee[0].Denom, fee.Fee.Denom)
+						zz.Assert(zz.Implies(positive, zz.QLe(feeAmt, zz.QOf(req.Fee[0].Amount))), "C18 basket Create succeeds only if the offer covers the fee")
 					}
+					zz.Assert(zz.Implies(positive, zz.And(len(req.Fee) > 0, same)), "C18 basket Create succeeds only with an offer in the fee denom")
+					zz.Assert(zz.Implies(zz.Not(positive), zz.BankCalls() == 1), "C18 with a zero basket fee, basket Create charges nothing (only denom metadata is set)")
 				} else {
 					zz.Assert(zz.BankCalls() == 1, "C18 with no basket fee set, basket Create charges nothing (only denom metadata is set)")
 				}
